@@ -11,6 +11,9 @@ Judges (they read only the REAL scheduler's observations, the recorded op list a
 * retention judge (C11 as written, after every operation): every finished proxy found in the pool is incomplete
   over the outputs it has completed (`retained-complete`); every completion-based removal concerns a finished and
   complete proxy (`removed-incomplete`, `removed-unfinished`).
+* delivery judge (the retention clause over arrival orders): an output message received from the current job of a
+  pooled task - in any order, e.g. a custom output after `succeeded` - is recorded as completed (`output-dropped`);
+  a finished task in the pool is incomplete even counting everything its job has reported (`retained-delivered`).
 * restart judge (for every `restart` op: the observation of the stopped scheduler against the observation of the
   new scheduler after start-up): a finished task must stay exactly as retained / complete as it was, so everything
   the completion decision and the continued run read is compared item by item -
@@ -92,6 +95,71 @@ def judgeRetention (g : Graph) (idx : Nat) (ob : Json) : Option String :=
             else none
       | _ => none
 
+/-! ### delivery judge: what the task's own job reports is recorded, in any order of arrival -/
+
+/-- the output messages that job messages handed to `process_message` in this observation carried for the CURRENT
+job of a pooled task (runner instrumentation `msgs`: flag `received`, top level, not forced, the proxy is the pooled
+one, the message's submit number is the proxy's, the task is preparing / submitted / running / succeeded / failed -
+a task waiting for a retry legitimately ignores late messages): (key, submit number, trigger, recorded afterwards) -/
+def deliveredOutputs (g : Graph) (ob : Json) : List (Key × Nat × String × Bool) :=
+  ((jArrField? ob "msgs").getD []).filterMap fun m =>
+    let k : Key := ((jIntField? m "p").getD 0, (jStrField? m "n").getD "")
+    let before := (jArrField? m "b").getD []
+    let after := (jArrField? m "a").getD []
+    match before, after with
+    | bst :: bsn :: _, _ :: _ :: aouts :: _ =>
+      let st := (jStr? bst).getD ""
+      if jStrField? m "fl" == some "received" && jNatField? m "d" == some 0 && jBoolField? m "tr" == some false &&
+          jBoolField? m "forced" == some false && jBoolField? m "in" == some true &&
+          jNatField? m "sn" == jNat? bsn &&
+          (st == "preparing" || st == "submitted" || st == "running" || st == "succeeded" || st == "failed") then
+        let msg := (jStrField? m "m").getD ""
+        if msg == "failed" || msg == "submit-failed" then none else
+        match (g.task? k.2).bind fun t => t.outputs.find? (·.message == msg) with
+        | some o => some (k, (jNat? bsn).getD 0, o.trigger, (strs aouts).contains o.trigger)
+        | none => none
+      else none
+    | _, _ => none
+
+/-- `output-dropped`: an output message received from the current job of a pooled task is among its completed
+outputs right after it was processed -/
+def judgeDelivered (g : Graph) (idx : Nat) (ob : Json) : Option String :=
+  firstSome (deliveredOutputs g ob) fun (k, sn, trg, ok) =>
+    if ok then none
+    else some s!"output-dropped: obs {idx}: job {sn} of {showKey k} reported its output {trg} and the output is not recorded as completed"
+
+/-- `retained-delivered` (retention clause of C11 over arrival orders): a finished task still in the pool is
+incomplete even when the outputs its current job has reported since the last restart - in whatever order they
+arrived - are counted -/
+def judgeRetainedDelivered (g : Graph) (ops obs : List Json) : Option String :=
+  let rec go (idx : Nat) (acc : List (Key × Nat × String)) (ops obs : List Json) : Option String :=
+    match obs with
+    | [] => none
+    | ob :: obs' =>
+      -- (reports count for the pooled incarnation only: forgotten once the instance leaves the pool)
+      let fresh : List (Key × Nat × String) := (deliveredOutputs g ob).map fun e => (e.1, e.2.1, e.2.2.1)
+      let acc := (acc ++ fresh).filter fun e => (findTask (poolOf ob) e.1).isSome
+      let here := firstSome (poolOf ob) fun t =>
+        let k := keyOf t
+        let st := (jStrField? t "st").getD ""
+        if !isFinalStr st then none else
+        match g.task? k.2 with
+        | none => none
+        | some td =>
+          let sn := (jNatField? t "sn").getD 0
+          let got := (acc.filter fun e => e.1 == k && e.2.1 == sn).map (·.2.2)
+          let outs := strs (fld t "out")
+          if !evalCompletion td.completion outs && evalCompletion td.completion (outs ++ got) then
+            some s!"retained-delivered: obs {idx}: {showKey k} is {st} and retained as incomplete (outputs {outs}) although its job {sn} has reported {got}: every output of its completion expression was delivered"
+          else none
+      match here with
+      | some w => some w
+      | none =>
+        match ops with
+        | [] => none
+        | op :: ops' => go (idx + 1) (if isRestart op then [] else acc) ops' obs'
+  go 0 [] ops obs
+
 /-! ### restart judge -/
 
 def keysOf (j : Json) : List Key := ((jArr? j).getD []).filterMap keyArr?
@@ -109,14 +177,16 @@ def launches (ob : Json) : List (Key × Nat) :=
     | some [p, n, sn] => do pure ((← jInt? p, ← jStr? n), ← jNat? sn)
     | _ => none
 
-/-- the first launch of instance `k` in the observations that follow, up to the next restart -/
+/-- the first launch of instance `k` in the observations that follow, up to the next restart, while it stays pooled -/
 def firstLaunch (k : Key) : List (Json × Json) → Option Nat
   | [] => none
   | (op, ob) :: rest =>
     if isRestart op then none else
     match (launches ob).find? fun l => l.1 == k with
     | some l => some l.2
-    | none => firstLaunch k rest
+    | none =>
+      -- (only while the restored proxy stays in the pool: a later incarnation is another matter)
+      if (findTask (poolOf ob) k).isNone then none else firstLaunch k rest
 
 /-- index (1-based position in `hist`, oldest first) of the last observation in which `proj` of instance `k`
 differs from the observation before it, both taken while `k` is pooled when `both`; 0 = never -/
@@ -300,7 +370,9 @@ def judgeRetentionAll (g : Graph) (o : Json) : Option String :=
     | [] => none
     | ob :: rest => match judgeRetention g i ob with
       | some w => some w
-      | none => go (i + 1) rest
+      | none => match judgeDelivered g i ob with
+        | some w => some w
+        | none => go (i + 1) rest
   go 0 (obsList o)
 
 def handle (i o : Json) : Except String Reply := do
@@ -318,7 +390,7 @@ def handle (i o : Json) : Except String Reply := do
   match fails.find? (!·.known) with
   | some f => return { model, holds := false, why := f.msg }
   | none =>
-    match judgeRetentionAll g o with
+    match (judgeRetentionAll g o).orElse fun _ => judgeRetainedDelivered g opsJ (obsList o) with
     | some w => return { model, holds := false, why := w }
     | none =>
       match fails with
